@@ -170,10 +170,12 @@ LONG_SHAPES = {
 class Table:
     """bins: [chrom, start, end, gene, log2, weight, depth]; segs: [chrom, start, end, gene, log2, probes, weight]."""
 
-    def __init__(self, segspec, geom="abut", weights="ones", mode="wmean", null=None, index="default", genes="targets"):
-        self.spec = {"segs": segspec, "geom": geom, "weights": weights, "mode": mode, "null": null, "index": index, "genes": genes}
+    def __init__(self, segspec, geom="abut", weights="ones", mode="wmean", null=None, index="default", genes="targets", only=None):
+        """only = c: both chromosomes start at coordinate 0 and the segment table is restricted to chromosome c, while the
+        bin table keeps both (a segment table for one chromosome against genome-wide bins)."""
+        self.spec = {"segs": segspec, "geom": geom, "weights": weights, "mode": mode, "null": null, "index": index, "genes": genes, "only": only}
         bins, segs = [], []
-        pos = {0: 0, 1: 500}
+        pos = {0: 0, 1: 500 if only is None else 0}
         gap = 50 if geom == "gaps" else 0
         for c, word in segspec:
             chrom, p, n = CHROMS[c], pos[c], len(word)
@@ -196,6 +198,8 @@ class Table:
                 if segs[j][0] == segs[j + 1][0] and len(segspec[j + 1][1]) >= 1:
                     segs[j][2] += 50
                     segs[j + 1][1] += 50
+        if only is not None:
+            segs = [sg for sg in segs if sg[0] == CHROMS[only]]
         wcycle = WEIGHTS[weights] if isinstance(weights, str) else list(weights)  # a pattern name, or one weight per bin
         for i, b in enumerate(bins):
             b[5] = wcycle[i % len(wcycle)]
@@ -885,6 +889,13 @@ def run_selection(case, ctx, b):
                 T = Table(spec, geom=geom, weights=w, mode=mode, index=index)
                 check_segmetrics(ctx, T, SELECT_LOC, SELECT_SPREAD, INTERVAL, SELECT_CFG, sub)
                 check_segmetrics(ctx, T, SELECT_LOC, SELECT_SPREAD, INTERVAL, {**SELECT_CFG, "skip_low": True}, sub)
+            if len({c for c, _n in lay}) == 2 and geom in ("abut", "gaps"):
+                # the segment table covers one chromosome only; the other chromosome's bins sit at the same coordinates
+                for only in (0, 1):
+                    T = Table(spec, geom=geom, weights=w, mode=mode, only=only)
+                    if T.segs:
+                        ctx.stratum("selection: segments on one chromosome, bins on two")
+                        check_segmetrics(ctx, T, SELECT_LOC, SELECT_SPREAD, INTERVAL, SELECT_CFG, {**sub, "segments_only_on": CHROMS[only]})
             if long_:
                 positions = sorted({0, nb // 2, nb - 1})
             else:
